@@ -108,11 +108,19 @@ static uint64_t content_digest(const LObj *b)
         size_t k;
         if (!r || !r->live) continue;
         h = fnv1a(&r->size, sizeof(r->size), h);
-        for (k = 0; k < r->size; ) {
-            uint64_t w = 0;
-            if (k + 8 <= r->size) memcpy(&w, r->ptr + k, 8);
-            if (k + 8 <= r->size && w == (uint64_t)(uintptr_t)r->ptr) { w = 0xBA5E; h = fnv1a(&w, 8, h); k += 8; }
-            else { h = fnv1a(r->ptr + k, 1, h); ++k; }
+        {   /* the context may sit at different offsets inside its block (the allocator alternates the block's
+             * address modulo 32): self-pointers are normalised first, then leading and trailing zero bytes
+             * are left out of the comparison */
+            static uint8_t tmp[32768]; size_t lo = 0, hi = r->size;
+            if (r->size > sizeof(tmp)) engine_error("content_digest: block too large");
+            memcpy(tmp, r->ptr, r->size);
+            for (k = 0; k + 8 <= r->size; ++k) {
+                uint64_t w; memcpy(&w, tmp + k, 8);
+                if (w == (uint64_t)(uintptr_t)r->ptr) { w = 0xBA5EBA5EBA5EBA5EULL; memcpy(tmp + k, &w, 8); k += 7; }
+            }
+            while (lo < hi && tmp[lo] == 0) ++lo;
+            while (hi > lo && tmp[hi - 1] == 0) --hi;
+            h = fnv1a(tmp + lo, hi - lo, h);
         }
     }
     return h;
@@ -274,8 +282,9 @@ static MCKind KIND; static char kname[96], ksig[96];
 
 static int setup_kind(const char *name)
 {
-    int ok, c, be, mode;
-    if (sscanf(name, "life%d-%d-%d-%d", &mode, &ok, &c, &be) != 4) return 0;
+    int ok, c, be, mode, skew = 0;
+    if (sscanf(name, "life%d-%d-%d-%d-s%d", &mode, &ok, &c, &be, &skew) < 4) return 0;
+    g_alloc_skew_phase = skew & 1;
     g_mode = mode; g_okind = ok; g_c = (Cipher)c; g_be = be; g_bs = cipher_bs(g_c);
     l_build();
     memset(&KIND, 0, sizeof(KIND));
@@ -432,11 +441,13 @@ static void body(void)
         return;
     }
     for (ok = 0; ok < 2; ++ok) for (c = 0; c < 3; ++c) for (be = 0; be <= cipher_max_be((Cipher)c); ++be, ++job) {
-        char nm[64];
+        char nm[64]; int skew;
         if (job % g_opts.nshards != g_opts.shard) continue;
-        snprintf(nm, sizeof(nm), "life%d-%d-%d-%d", mode, ok, c, be);
-        setup_kind(nm);
-        if (!mc_explore(&KIND)) ++cut;
+        for (skew = 0; skew < 2; ++skew) {      /* both placements of the context block modulo 32 */
+            snprintf(nm, sizeof(nm), "life%d-%d-%d-%d-s%d", mode, ok, c, be, skew);
+            setup_kind(nm);
+            if (!mc_explore(&KIND)) ++cut;
+        }
         if (job < 4) sample_add("%s: %s %s on %s, alphabet of %d operations over %s, depth <= %d", nm, okname(), cipher_name(g_c), be_name(g_be), l_nops,
                                 mode == 17 ? "one object" : "two objects", KIND.max_depth);
     }
